@@ -28,7 +28,7 @@ SIGPROBE = ('// PROBE-ID: S\n\npackage {{.PkgName}}\n\n'
 ORIG = "package orig\n\ntype T struct{ V int }\n\ntype Other int\n\ntype A = T\n\ntype G[X any] struct{ V X }\n\ntype I interface{ M() }\n"
 PKGS = {
     "orig": ORIG, "ext/model": "package model\n\ntype T struct{ M int }\n",
-    "repa": "package repa\n\ntype R1 struct{ A int }\n\ntype R2 int\n\ntype RA = R1\n", "repb": "package repb\n\nimport \"time\"\n\ntype U struct{ B int }\n\ntype Dur = time.Duration\n",
+    "repa": "package repa\n\ntype R1 struct{ A int }\n\ntype R2 int\n\ntype RA = R1\n", "repb": "package repb\n\nimport \"time\"\n\ntype U struct{ B int }\n\ntype Dur = time.Duration\n\ntype R1 struct{ Z string }\n\ntype R2 float64\n",
     "rep/model": "package model\n\ntype R struct{ C int }\n",
 }
 # candidate parameter types: (source text, key of the exact named type it *is*, or None)
@@ -129,6 +129,8 @@ def expected_types(iface, by_name, repl):
 REPLACEMENTS = [
     {"T": ("repa", "R1")}, {"T": ("repa", "R1"), "Other": ("repa", "R2")}, {"T": ("rep/model", "R")}, {"A": ("repb", "U")}, {"T": ("repa", "RA")}, {"Other": ("repb", "Dur")},
     {"T": ("repb", "U"), "A": ("repa", "R1"), "Other": ("rep/model", "R")},
+    # two targets with the same type name in different packages: the configured pkg-path selects the package
+    {"T": ("repa", "R1"), "Other": ("repb", "R1")}, {"T": ("repb", "R2"), "A": ("repa", "R2"), "Other": ("repb", "R1")},
 ]
 
 
@@ -138,7 +140,7 @@ def gen_cases(ctx):
     n = 2 if ctx.tier == "quick" else 10
     for rep in range(n):
         for ri, r in enumerate(REPLACEMENTS):
-            for level in ("root", "pkg", "iface", "cfg", "root+iface"):
+            for level in ("root", "pkg", "iface", "cfg", "root+iface", "recparent"):
                 cases.append({"seed": rng.randrange(1 << 30), "repl": {k: list(v) for k, v in r.items()}, "level": level,
                               "placement": rng.choice(["inpkg", "outpkg"]), "builtin_formatter": rng.choice(["gofmt", "noop", "goimports"])})
     return cases
@@ -195,6 +197,13 @@ def eval_case(ctx, case):
                 cfg["replace-type"] = rt
             if lvl == "pkg":
                 pk["config"]["replace-type"] = rt
+        if lvl == "recparent":
+            # written in the config of a recursive package above: reaches the explicitly listed sub-package, its listed and its unlisted interfaces alike
+            pk["config"]["all"] = True
+            for nm in target[1::2]:
+                pk["interfaces"].pop(nm)
+        if with_rt:
+            pass
             if "iface" in lvl or lvl == "cfg":
                 scoped_all = "root" in lvl
                 for nm in target:
@@ -205,6 +214,8 @@ def eval_case(ctx, case):
                     else:
                         pk["interfaces"][nm]["config"]["replace-type"] = rt
         cfg["packages"] = {MOD + "/svc": pk}
+        if lvl == "recparent":
+            cfg["packages"][MOD] = {"config": dict({"recursive": True}, **({"replace-type": rt} if with_rt else {}))}
         return cfg, scoped_all
     results = {}
     for with_rt in (False, True):
